@@ -297,12 +297,20 @@ func VH_C18_RootFound(k, j int) {
 // The remote path has k one-byte elements; the file that exists locally is
 // <local root>/<tree>/<last j elements>.
 //
+// k = 0 is a frame without a file line (cut or malformed dump: empty path),
+// k = 1 a file directly under the root directory.
+//
 //verif:prop C03
-//verif:param k 2..4
+//verif:param k 0..4
 //verif:param j 1..3
 //verif:param tree 0..2
 func VH_C03_FindRoots(k, j, tree int) {
-	if j >= k {
+	if k < 2 {
+		if j != 1 {
+			return
+		}
+		j = 0
+	} else if j >= k {
 		return
 	}
 	parts := make([]string, k)
@@ -312,6 +320,9 @@ func VH_C03_FindRoots(k, j, tree int) {
 		parts[i] = string(b)
 	}
 	remote := "/" + pathJoin(parts...)
+	if k == 0 {
+		remote = ""
+	}
 	root := vTempRoot()
 	s := &Snapshot{LocalGOROOT: root + "/goroot", LocalGOPATHs: []string{root + "/gopath"}}
 	switch tree {
